@@ -13,6 +13,10 @@ import (
 var c14Kinds = []int{0, 1, 2, 3, 4, 5, 6, 7, 8, 9, 10, 11, 12, 13, 14, 15, 16, 17, 18, 20}
 
 func genC14(seed int64, tier string) *Plan {
+	if seed%4 == 3 {
+		// a fourth of the histories exercise the peer configuration (replicators, P2P collections)
+		return genC14Peer(seed, tier)
+	}
 	r := newRng(seed, 14)
 	p := &Plan{Prop: "C14", Engine: "E3", Seed: seed, Cfg: map[string]int{}}
 	p.Cfg["col"] = pick(r, []int{0, 1, 2, 3, 4, 5})
@@ -48,6 +52,10 @@ func genC14(seed int64, tier string) *Plan {
 }
 
 func runC14(p *Plan, res *Result) {
+	if p.cfg("peer", 0) == 1 {
+		runC14Peer(p, res)
+		return
+	}
 	ctx, cancel := context.WithCancel(context.Background())
 	defer cancel()
 	installRand(p.Seed)
